@@ -160,7 +160,7 @@ def to_dec_q(v):
 
 
 def generate():
-    lines = ["(* GENERATED by harness/gen_consts.py from %s -- do not edit. *)" % REPO,
+    lines = ["(* GENERATED by harness/gen_consts.py from the repository under check -- do not edit. *)",
              "From Coq Require Import ZArith QArith PrimFloat.", "Open Scope Q_scope.", ""]
     vals = {}
     for name, file, kind, spec in SPEC:
